@@ -383,19 +383,32 @@ func Attack(args []string) {
 		// ---- directory attacks
 		for fi, rel := range e.order {
 			content := e.files[rel]
-			for off := (*seed + fi) % *stride; off < len(content); off += *stride {
-				what := fmt.Sprintf("flip %s@%d", rel, off)
-				if rel == "manifest.json" {
-					lo, hi := off-24, off+8
-					if lo < 0 {
-						lo = 0
-					}
-					if hi > len(content) {
-						hi = len(content)
-					}
-					what += " near " + strings.Join(strings.Fields(string(content[lo:hi])), " ")
+			// fragments are small: every offset; the manifest: every stride-th offset.  Each chosen offset is flipped with a
+			// rotating single-bit mask and, where the byte is a letter, with the ASCII case bit as well (JSON keys are matched
+			// case-insensitively by the decoder, string values are not)
+			step := *stride
+			if rel != "manifest.json" {
+				step = 1
+			}
+			for off := (*seed + fi) % step; off < len(content); off += step {
+				masks := []byte{1 << uint((off+*seed)%8)}
+				if c := content[off] | 0x20; c >= 'a' && c <= 'z' && masks[0] != 0x20 {
+					masks = append(masks, 0x20)
 				}
-				e.attackDir(what, map[string][]byte{rel: flip(content, off, 1<<uint((off+*seed)%8))}, "")
+				for _, mask := range masks {
+					what := fmt.Sprintf("flip %s@%d^%02x", rel, off, mask)
+					if rel == "manifest.json" {
+						lo, hi := off-24, off+8
+						if lo < 0 {
+							lo = 0
+						}
+						if hi > len(content) {
+							hi = len(content)
+						}
+						what += " near " + strings.Join(strings.Fields(string(content[lo:hi])), " ")
+					}
+					e.attackDir(what, map[string][]byte{rel: flip(content, off, mask)}, "")
+				}
 			}
 			for l := (*seed * 3) % (*stride * 3); l < len(content); l += *stride * 3 {
 				e.attackDir(fmt.Sprintf("truncate %s to %d", rel, l), map[string][]byte{rel: content[:l]}, "strict")
@@ -436,6 +449,14 @@ func Attack(args []string) {
 			g0(m)["node_count"] = g0(m)["node_count"].(float64) + 1
 		})
 		edit("sha256 of another file", func(m map[string]any) { f0(m, 0)["sha256"] = f0(m, 1)["sha256"] })
+		lastFile := func(m map[string]any) map[string]any {
+			fsl := g0(m)["files"].([]any)
+			return fsl[len(fsl)-1].(map[string]any)
+		}
+		edit("sha256 of the edge file", func(m map[string]any) { lastFile(m)["sha256"] = f0(m, 0)["sha256"] })
+		edit("compressed_bytes of the edge file", func(m map[string]any) {
+			lastFile(m)["compressed_bytes"] = lastFile(m)["compressed_bytes"].(float64) + 1
+		})
 		edit("path of another file", func(m map[string]any) { f0(m, 0)["path"] = f0(m, 1)["path"] })
 		edit("path escapes the directory", func(m map[string]any) { f0(m, 0)["path"] = "../dump2/" + f0(m, 0)["path"].(string) })
 		edit("codec", func(m map[string]any) {
@@ -464,8 +485,25 @@ func Attack(args []string) {
 		edit("id_strategy", func(m map[string]any) { m["id_strategy"] = "other" })
 		edit("graph name", func(m map[string]any) { g0(m)["name"] = "gX" })
 		// ---- archive attacks
-		for off := *seed % *stride; off < len(e.enc); off += *stride {
-			e.attackArchive(fmt.Sprintf("flip archive@%d", off), flip(e.enc, off, 1<<uint((off+*seed)%8)), e.priv, "strict")
+		// the clear-text header (magic, length, JSON header) is small and hashed into every frame's additional data: every
+		// offset, rotating mask plus the case bit on letters; the frames: every stride-th offset
+		headerEnd, _ := parseFrames(e.enc)
+		for off := 0; off < len(e.enc); off++ {
+			inHeader := off < headerEnd
+			if !inHeader && (off-*seed)%*stride != 0 {
+				continue
+			}
+			masks := []byte{1 << uint((off+*seed)%8)}
+			if c := e.enc[off] | 0x20; inHeader && c >= 'a' && c <= 'z' && masks[0] != 0x20 {
+				masks = append(masks, 0x20)
+			}
+			for _, mask := range masks {
+				part := "frames"
+				if inHeader {
+					part = "header"
+				}
+				e.attackArchive(fmt.Sprintf("flip archive-%s@%d^%02x", part, off, mask), flip(e.enc, off, mask), e.priv, "strict")
+			}
 		}
 		for l := (*seed * 5) % (*stride * 8); l < len(e.enc); l += *stride * 8 {
 			e.attackArchive(fmt.Sprintf("truncate archive to %d", l), e.enc[:l], e.priv, "strict")
